@@ -27,6 +27,7 @@ const (
 	legacyQuick, legacyThorough = 2000, 500000
 	extQuick, extThorough       = 1200, 120000
 	r4Quick, r4Thorough         = 1500, 90000 // round 4: router+names, standalone+stateful, router+stateful (round-robin)
+	r5Quick, r5Thorough         = 1600, 60000 // round 5: router+lifecycle
 )
 
 func init() {
@@ -34,7 +35,7 @@ func init() {
 		ID:    "C13",
 		Level: "exploration",
 		Cases: func(tier string) int {
-			return vlib.TierN(tier, legacyQuick+extQuick+r4Quick, legacyThorough+extThorough+r4Thorough)
+			return vlib.TierN(tier, legacyQuick+extQuick+r4Quick+r5Quick, legacyThorough+extThorough+r4Thorough+r5Thorough)
 		},
 		Rule: "case = one PoisonQueue instance (constructor without filter, or PoisonQueueWithFilter with one of 7 predicates: all, none, errors.Is sentinel, " +
 			"its negation, errors.As type, hash of the text, not context.Canceled) with a random poison topic, 1..6 messages (random payload, 0..4 random metadata keys, " +
@@ -63,9 +64,19 @@ func init() {
 			"with a budget, alternating}; every answer the filter gives is recorded with the handler invocation whose error it decides (per-attempt tagged error wrappers, 50%, allow " +
 			"concurrent deliveries; otherwise one failure at a time) and the model is evaluated over those answers: all yes -> poison rows, all no -> pass-through row, " +
 			"contradicting answers for one failure (or none) -> the row matching what reached the poison publisher is demanded in full, so that success without a publish is never allowed. " +
+			"Round-5 class (the last 1600 quick / 60000 thorough indices): 'router+lifecycle' = the PoisonQueue (router-level, or handler-level on 65% of the handlers, at least one) inside a Router " +
+			"that has a history before and between the deliveries: wave 0 = 1..3 handlers registered before Run, 0..2 later waves of 1..2 handlers added to the running Router and started with RunHandlers; " +
+			"start-up faults: per handler 30%: its first 1..2 Subscribe calls fail, 30%: an application SubscriberDecorator (innermost or after the context-value decorator) fails at 1..2 drawn call numbers, " +
+			"15%: an application PublisherDecorator likewise; RunHandlers is repeated until it returns nil; when the failing attempt is the one made by Run, Run returns the error, the handlers it had started stop with " +
+			"its context, the harness awaits them, repeats RunHandlers and registers the stopped ones once more under their names; every handler but #0 (which keeps the Router alive) is stopped with 45% after a drawn wave, " +
+			"by Handler.Stop or by its subscription ending, and awaited (Stopped()); handlers of later waves take with 40% the name of a handler stopped earlier (half of them also its subscriber object and topic); names otherwise: " +
+			"30% the empty name (once), 25% a variant of another handler's name (common prefix of all names, name + space, upper-cased), else plain; subscribers/publishers named as in 'router+names', 8% the topic \"\", " +
+			"subscriber or topic shared with handler #0, 40% of the handlers with a pass-through handler-level middleware of their own, 25% foreign context values; 2..4+ messages, each consumed by a handler covered by the " +
+			"PoisonQueue at a drawn instant at which it runs (after its wave was started and before it is stopped; the first message by a handler of the last wave, half of the rest after the whole history), redelivered after every Nack at most " +
+			"len(attempts)-1 times, so that a message that never reaches the poison topic ends as 'nacked-instead-of-ack' / 'not-published' instead of a redelivery loop; expected names = those of the registration that consumed the message. " +
 			"Every attempt is one evaluation of the model; a case is non-trivial when at least " +
 			"one attempt failed with an error the filter accepts (the poison publisher was due); distinct = distinct (mode, filter, registration, topology, per-attempt " +
-			"(error shape, outputs, filter verdict, publisher outcome, settlement), per-message context-injection shape) signatures.",
+			"(error shape, outputs, filter verdict, publisher outcome, settlement), per-message context-injection shape, lifecycle history incl. the observed failed start-up attempts) signatures.",
 		Assumptions: []string{
 			"messages are built with message.NewMessage (non-nil Metadata map)",
 			"stand-alone calls carry no Router context, so the topic/handler/subscriber keys are expected to be set to the empty string (the context keys are unexported and cannot be forged); " +
@@ -77,6 +88,10 @@ func init() {
 				"is the set of answers the filter gave between the handler's return and the middleware's return for that invocation; a failure with contradicting answers may take either row of the model, but one of them completely",
 			"'router+names': an empty name is a name - the expected value of handler_poisoned / subscriber_poisoned / topic_poisoned is the empty string exactly where the handler name / " +
 				"the subscriber's String() / the subscribe topic is empty, and the registered value everywhere else, whatever the other names (incl. the publisher's) are",
+			"'router+lifecycle': the history uses the Router as documented: 'RunHandlers is idempotent, so can be called multiple times safely' (repeated after an error, also after Run returned the start-up error), " +
+				"'If handler is added while router is already running, you need to explicitly call RunHandlers()', a handler name is free again once Stopped() of its handler is closed; the statement does not mention the history, " +
+				"so it is expected to hold unchanged for every handler covered by the PoisonQueue; handlers without a PoisonQueue (handler-level registration) receive no messages; " +
+				"a RunHandlers error without a scripted fault left, a handler that does not start / stop, or a message that is not consumed make the case inconclusive (not this property)",
 			"outputs returned together with an accepted error are not judged (the statement is silent on them)",
 			"a blocked call is decided by the quiescence detector, not by a time-out",
 		},
@@ -284,16 +299,17 @@ func (w *world) poisonPub(name string) *vlib.Pub {
 // case
 
 type config struct {
-	Mode        string `json:"mode"`
-	Variant     string `json:"variant,omitempty"` // "" (base classes) | "ctx" | "shared"
-	Filter      string `json:"filter"`
-	PoisonTopic string `json:"poison_topic"`
-	Reg         string `json:"registration,omitempty"`
-	Concurrent  bool   `json:"concurrent,omitempty"`
-	CtxValues   bool   `json:"foreign_ctx_values,omitempty"`
-	FilterParam string `json:"filter_param,omitempty"`  // '+stateful': parameters of the filter with memory
-	TaggedErrs  bool   `json:"tagged_errors,omitempty"` // '+stateful': every planned error is wrapped in a per-attempt *tagErr
-	Handlers    []hcfg `json:"handlers,omitempty"`
+	Mode        string    `json:"mode"`
+	Variant     string    `json:"variant,omitempty"` // "" (base classes) | "ctx" | "shared"
+	Filter      string    `json:"filter"`
+	PoisonTopic string    `json:"poison_topic"`
+	Reg         string    `json:"registration,omitempty"`
+	Concurrent  bool      `json:"concurrent,omitempty"`
+	CtxValues   bool      `json:"foreign_ctx_values,omitempty"`
+	FilterParam string    `json:"filter_param,omitempty"`  // '+stateful': parameters of the filter with memory
+	TaggedErrs  bool      `json:"tagged_errors,omitempty"` // '+stateful': every planned error is wrapped in a per-attempt *tagErr
+	Handlers    []hcfg    `json:"handlers,omitempty"`
+	Life        *lifePlan `json:"lifecycle,omitempty"` // 'router+lifecycle': the history of the Router before / between the deliveries
 }
 
 type hcfg struct {
@@ -302,6 +318,7 @@ type hcfg struct {
 	SubKind          string `json:",omitempty"` // how the Router names the subscriber: stringer | empty-stringer | ptr-type | value-type
 	PubKind          string `json:",omitempty"` // 'router+names': stringer | empty-stringer | ptr-type | value-type | none | empty-publish-topic
 	SubOf            int    // index of the handler whose subscriber object this one uses (its own index = its own)
+	Life             *lifeH `json:",omitempty"` // 'router+lifecycle': when it is registered / started / stopped
 }
 
 const (
@@ -315,12 +332,15 @@ func run(e *vlib.Env) vlib.Result {
 	legacyN := vlib.TierN(e.Tier, legacyQuick, legacyThorough)
 	ext := e.Idx >= legacyN
 	r4 := e.Idx >= legacyN+vlib.TierN(e.Tier, extQuick, extThorough)
+	r5 := e.Idx >= legacyN+vlib.TierN(e.Tier, extQuick, extThorough)+vlib.TierN(e.Tier, r4Quick, r4Thorough)
 	cfg := config{Mode: "standalone", Filter: filterKinds[r.Intn(len(filterKinds))]}
 	stateful := false
 	if !ext {
 		if e.Idx%2 == 1 {
 			cfg.Mode = "router"
 		}
+	} else if r5 {
+		cfg.Mode, cfg.Variant, cfg.CtxValues = "router", "lifecycle", r.Chance(0.25)
 	} else if r4 {
 		switch e.Idx % 3 {
 		case 0:
@@ -372,7 +392,10 @@ func run(e *vlib.Env) vlib.Result {
 	}
 
 	nh := 1
-	if cfg.Mode == "router" {
+	if cfg.Variant == "lifecycle" {
+		genLifecycle(r, e.ID(), &cfg)
+		nh = len(cfg.Handlers)
+	} else if cfg.Mode == "router" {
 		nh = r.Range(1, 2)
 		cfg.Reg = []string{regRouter, regHandler}[r.Intn(2)]
 		cfg.Concurrent = r.Bool()
@@ -444,12 +467,20 @@ func run(e *vlib.Env) vlib.Result {
 	if cfg.Variant == "shared" {
 		nmsg = r.Range(nh, 6)
 	}
+	if cfg.Life != nil {
+		nmsg = r.Range(2, 4+nh/2)
+	}
 	for i := 0; i < nmsg; i++ {
 		force := -2
 		if cfg.Variant == "shared" && i < nh {
 			force = i // every handler that shares the wrapped function gets a message
 		}
+		at := 0
+		if cfg.Life != nil {
+			force, at = cfg.lifeTarget(r, i) // a handler covered by the PoisonQueue, at an instant of the history at which it runs
+		}
 		p := genMsg(r, e.ID(), i, sent, nh, force, allowOuts)
+		p.At = at
 		if cfg.TaggedErrs {
 			for k := range p.Attempts {
 				if ap := &p.Attempts[k]; ap.Err != nil {
@@ -501,6 +532,8 @@ func run(e *vlib.Env) vlib.Result {
 
 	if cfg.Mode == "standalone" {
 		runStandalone(&res, w, pq, &cfg)
+	} else if cfg.Life != nil {
+		runLifecycle(&res, w, pq, &cfg)
 	} else {
 		runRouter(&res, w, pq, &cfg)
 	}
